@@ -221,9 +221,11 @@ theorem instant_allDay (z : Zone) (c : ZRng) (i : Inst) (h : i.isAllDay = true) 
     instantLoc z c i = some (i, c) ∧ instantUtc z c i = some (i, c) ∧ tzobOffs z i = some 0 := by
   unfold instantLoc instantUtc tzobOffs; simp [h]
 
-/-- `echs_instant_loc`: the instant `off z (epoch i)` seconds later -/
+/-- `echs_instant_loc`: the instant `off z (epoch i)` seconds later; the epoch time `ep i` of the instant is
+signed (negative before 1970, `C08.toEpoch_spec`), so the statement holds for every year whose epoch times fit
+`int32_t`, the type of the transition table: 1902..2037 -/
 theorem instant_loc (z : Zone) (wf : WF z) (c : ZRng) (hc : CacheOK z c) (i : Inst)
-    (h : NormalSec i) (hy1 : 1970 ≤ i.y) (hy2 : i.y ≤ 2037) :
+    (h : NormalSec i) (hy1 : 1902 ≤ i.y) (hy2 : i.y ≤ 2037) :
     ∃ j c', instantLoc z c i = some (j, c') ∧ CacheOK z c' ∧ NormalSec j ∧ InRange j ∧
       absSec j = absSec i + off z (ep i) := by
   obtain ⟨e, l, u⟩ := ep_spec i h hy1 hy2
@@ -236,7 +238,7 @@ theorem instant_loc (z : Zone) (wf : WF z) (c : ZRng) (hc : CacheOK z c) (i : In
 
 /-- `echs_instant_utc`: the instant `off z (w − off z w)` seconds earlier, `w = epoch i` -/
 theorem instant_utc (z : Zone) (wf : WF z) (c : ZRng) (hc : CacheOK z c) (i : Inst)
-    (h : NormalSec i) (hy1 : 1970 ≤ i.y) (hy2 : i.y ≤ 2037) :
+    (h : NormalSec i) (hy1 : 1902 ≤ i.y) (hy2 : i.y ≤ 2037) :
     ∃ j c', instantUtc z c i = some (j, c') ∧ CacheOK z c' ∧ NormalSec j ∧ InRange j ∧
       absSec j = absSec i - off z (ep i - off z (ep i)) := by
   obtain ⟨e, l, u⟩ := ep_spec i h hy1 hy2
@@ -249,30 +251,29 @@ theorem instant_utc (z : Zone) (wf : WF z) (c : ZRng) (hc : CacheOK z c) (i : In
     (by rw [I32_iff]; omega) (by omega) (by omega)
 
 /-- if `i` shows the wall clock of the UTC time `u` and the first-guess condition of item 4
-holds, `echs_instant_utc` returns the instant of `u` -/
+holds, `echs_instant_utc` returns the instant of `u` (whether `u` is before 1970 or not) -/
 theorem instant_utc_of_local (z : Zone) (wf : WF z) (c : ZRng) (hc : CacheOK z c) (i : Inst)
-    (h : NormalSec i) (hy1 : 1970 ≤ i.y) (hy2 : i.y ≤ 2037) (u : Int) (hu : ep i = u + off z u)
+    (h : NormalSec i) (hy1 : 1902 ≤ i.y) (hy2 : i.y ≤ 2037) (u : Int) (hu : ep i = u + off z u)
     (hfg : off z (u + off z u - off z (u + off z u)) = off z u) :
     ∃ j c', instantUtc z c i = some (j, c') ∧ CacheOK z c' ∧ NormalSec j ∧ InRange j ∧
-      absSec j = absSec i - off z u ∧ (0 ≤ u → ep j = u) := by
+      absSec j = absSec i - off z u ∧ ep j = u := by
   obtain ⟨j, c', e, hc', n, r, a⟩ := instant_utc z wf c hc i h hy1 hy2
   rw [hu, hfg] at a
   refine ⟨j, c', e, hc', n, r, a, ?_⟩
-  intro h0
   obtain ⟨e1, l, up⟩ := ep_spec i h hy1 hy2
   have b := off_bound z wf u
-  exact ep_of_absSec j n u h0 (by omega) (by omega)
+  exact ep_of_absSec j n u (by omega) (by omega) (by omega)
 
 /-- round trip on instants: `echs_instant_utc (echs_instant_loc i) = i` under the first-guess
-condition at `u = epoch i` (and the local time not before 1970) -/
+condition at `u = epoch i` (the local time may lie before 1970) -/
 theorem instant_roundtrip (z : Zone) (wf : WF z) (c : ZRng) (hc : CacheOK z c) (i : Inst)
-    (h : NormalSec i) (hy1 : 1970 ≤ i.y) (hy2 : i.y ≤ 2037) (h0 : 0 ≤ ep i + off z (ep i))
+    (h : NormalSec i) (hy1 : 1902 ≤ i.y) (hy2 : i.y ≤ 2037)
     (hfg : off z (ep i + off z (ep i) - off z (ep i + off z (ep i))) = off z (ep i)) :
     ∃ j c1 c2, instantLoc z c i = some (j, c1) ∧ instantUtc z c1 j = some (i, c2) ∧ CacheOK z c2 := by
   obtain ⟨e, l, u⟩ := ep_spec i h hy1 hy2
   obtain ⟨j, c1, e1, h1, n, r, a⟩ := instant_loc z wf c hc i h hy1 hy2
   have b := off_bound z wf (ep i)
-  have hj : ep j = ep i + off z (ep i) := ep_of_absSec j n _ h0 (by omega) (by omega)
+  have hj : ep j = ep i + off z (ep i) := ep_of_absSec j n _ (by omega) (by omega) (by omega)
   have b' := off_bound z wf (ep j)
   have b'' := off_bound z wf (ep j - off z (ep j))
   have hd := days_1901
@@ -288,7 +289,7 @@ theorem instant_roundtrip (z : Zone) (wf : WF z) (c : ZRng) (hc : CacheOK z c) (
 
 /-- `echs_tzob_offs` (uncached) reports the offset in force -/
 theorem instant_offs (z : Zone) (wf : WF z) (i : Inst)
-    (h : NormalSec i) (hy1 : 1970 ≤ i.y) (hy2 : i.y ≤ 2037) :
+    (h : NormalSec i) (hy1 : 1902 ≤ i.y) (hy2 : i.y ≤ 2037) :
     tzobOffs z i = some (off z (ep i)) := by
   obtain ⟨e, l, u⟩ := ep_spec i h hy1 hy2
   exact tzobOffs_gen z wf i h.2.1 (by rw [I32_iff]; omega)
@@ -339,5 +340,15 @@ example : (instantLoc zBer ZRng.fresh ⟨2020,12,31,23,30,0,1023⟩).map (·.1) 
 example : (instantLoc zBer ZRng.fresh ⟨2020,7,1,255,0,0,0⟩).map (·.1) = some ⟨2020,7,1,255,0,0,0⟩ := by decide
 example : tzobOffs zBer ⟨2020,3,29,1,0,0,1023⟩ = some 7200 := by decide
 example : tzobOffs zBer ⟨2020,3,29,0,59,59,1023⟩ = some 3600 := by decide
+
+-- instants before 1970 (negative epoch times): one transition at -1000000000 = 1938-04-24T22:13:20Z, 0 → +1h
+def zOld : Zone := { trs := [-1000000000], tys := [1], offs := [0, 3600] }
+example : WF zOld := by decide
+example : ep ⟨1938,4,24,22,13,20,1023⟩ = -1000000000 := by decide
+example : tzobOffs zOld ⟨1938,4,24,22,13,19,1023⟩ = some 0 := by decide
+example : tzobOffs zOld ⟨1938,4,24,22,13,20,1023⟩ = some 3600 := by decide
+example : (instantLoc zOld ZRng.fresh ⟨1969,12,31,23,30,0,1023⟩).map (·.1) = some ⟨1970,1,1,0,30,0,1023⟩ := by decide
+example : (instantUtc zOld ZRng.fresh ⟨1970,1,1,0,30,0,1023⟩).map (·.1) = some ⟨1969,12,31,23,30,0,1023⟩ := by decide
+example : (instantLoc zOld ZRng.fresh ⟨1902,1,1,0,0,0,1023⟩).map (·.1) = some ⟨1902,1,1,0,0,0,1023⟩ := by decide
 
 end C07
